@@ -269,6 +269,10 @@ def gen(rng, tier):
                 off = rng.randint(0, 3)
                 a, b = (off, off + dist) if not rev else (off + dist, off)
                 inputs.append({"kind": "gate2", "gate": name, "sites": [a, b], "heavy": dist <= 3 or name == "cx"})
+                if dist <= 3:
+                    # the same gate object placed twice: first reversed (or on a shifted pair), then on (a, b)
+                    inputs.append({"kind": "gate2", "gate": name, "sites": [a, b], "heavy": True,
+                                   "replace": [b, a] if (a + b) % 2 else [b + 1, a + 1]})
     ts = rational_ts(rng, n_ang)
     for name in ROT_1Q:
         for t in ts:
@@ -302,6 +306,8 @@ def gen(rng, tier):
         a = rng.randrange(length)
         b = rng.choice([x for x in range(length) if x != a])
         inputs.append({"kind": "slots", "sites": [a, b], "length": length})
+    for _ in range({"quick": 24, "thorough": 200, "search": 60}.get(tier, 24)):
+        inputs.append({"kind": "lrlayer", "sub": rng.randrange(1 << 30)})
     n_cons = {"quick": 2, "thorough": 8, "search": 3}.get(tier, 2)
     for name in WITH_GENERATOR:
         for rev in (0, 1):
@@ -431,6 +437,9 @@ def run_gate2(inp):
     cs = ang.cs() if ang else "0 0"
     mcs = (" " + ang.cs()) if ang else ""
     g = make_gate(name, params)
+    if inp.get("replace"):
+        # the same gate object was placed somewhere else before (re-placement must not leave anything stale behind)
+        g.set_sites(*[int(v) for v in inp["replace"]])
     with spy_split() as rec:
         g.set_sites(a, b)
     mat = np.asarray(g.matrix, dtype=np.complex128)
@@ -522,6 +531,56 @@ def run_gate2(inp):
     else:
         out.append({"req": None, "impl": None, "oracle": oracle(probs), "kind": "mpo-expected", "sig": f"mpoexp:{tag}", "key": f"mpo:{name}"})
     return out
+
+
+def run_lrlayer(inp):
+    """the consumer of `mpo_tensors`: mpo_utils.apply_long_range_layer merges a long-range gate's MPO form into an operator MPO
+    whose bonds are already > 1.  Oracle (dense): new = G . old, and old . G^dagger for the conjugated side."""
+    import random as _r
+
+    from qiskit import QuantumCircuit
+    from qiskit.converters import circuit_to_dag
+    from qiskit.quantum_info import Operator
+
+    from mqt.yaqs.core.data_structures.networks import MPO
+    from mqt.yaqs.digital.utils import mpo_utils as mu
+
+    rng = _r.Random(inp["sub"])
+    nprng = np.random.default_rng(inp["sub"])
+    L = rng.choice([4, 5, 6])
+    span = rng.randrange(2, L)                      # distance between the two qubits: 2 .. L-1  (3 .. L sites)
+    lo = rng.randrange(0, L - span)
+    a, b = (lo, lo + span) if rng.random() < 0.5 else (lo + span, lo)
+    name = rng.choice(["cx", "cx", "cz", "cp", "rzz", "rxx", "ryy"])
+    th = rng.uniform(0.2, 2.8)
+    conj = rng.random() < 0.5
+    chi = rng.choice([1, 2, 2, 3])
+    dims = [1] + [chi] * (L - 1) + [1]
+    ts = [nprng.normal(size=(2, 2, dims[i], dims[i + 1])) + 1j * nprng.normal(size=(2, 2, dims[i], dims[i + 1])) for i in range(L)]
+    m = MPO()
+    m.custom(ts, transpose=False)
+    old = m.to_matrix()
+    qc = QuantumCircuit(L)
+    getattr(qc, name)(*([a, b] if name in ("cx", "cz") else [th, a, b]))
+    empty = QuantumCircuit(L)
+    d1, d2 = (circuit_to_dag(empty), circuit_to_dag(qc)) if conj else (circuit_to_dag(qc), circuit_to_dag(empty))
+    probs = []
+    try:
+        mu.apply_long_range_layer(m, d1, d2, 1e-13, conjugate=conj)
+        new = m.to_matrix()
+        G = Operator(qc.reverse_bits()).data     # site 0 leftmost
+        want = old @ G.conj().T if conj else G @ old
+        dev = float(np.abs(new - want).max()) / max(1.0, float(np.abs(want).max()))
+        if dev > 1e-8:
+            probs.append(f"apply_long_range_layer({name} on ({a},{b}), L={L}, MPO bond {chi}, conjugate={conj}): result differs from "
+                         f"{'old.G^dagger' if conj else 'G.old'} by {dev:.3e} (relative)")
+        left = len(list((d2 if conj else d1).op_nodes()))
+        if left != 0:
+            probs.append(f"the long-range gate was not removed from its DAG ({left} nodes left)")
+    except Exception as e:  # noqa: BLE001
+        probs.append(f"apply_long_range_layer raised {type(e).__name__}: {e} ({name} on ({a},{b}), L={L}, bond {chi}, conjugate={conj})")
+    return {"req": None, "impl": None, "kind": "lrlayer", "oracle": oracle(probs, "long-range layer = dense product"),
+            "sig": f"lrlayer:{name}:{span}:{a < b}:{chi}:{conj}", "nontrivial": chi > 1}
 
 
 def run_slots(inp):
@@ -632,7 +691,7 @@ def run_circuit(inp):
 
 def run(inp):
     k = inp["kind"]
-    fn = {"fixed": run_fixed, "ladder": run_ladder, "gate1": run_gate1, "gate2": run_gate2, "slots": run_slots,
+    fn = {"fixed": run_fixed, "ladder": run_ladder, "gate1": run_gate1, "gate2": run_gate2, "slots": run_slots, "lrlayer": run_lrlayer,
           "consumer": run_consumer, "circuit": run_circuit}.get(k)
     if fn is None:
         raise ValueError(k)
